@@ -24,6 +24,22 @@ TEXT = {
          "ops_safe lifts this to every sequence of public calls incl. continued use after ParseError/StreamReadError/ConnectionClosed. oneShot_no_panic and requestLine_no_panic: the one-shot parser never panics "
          "(headers_end - 2 cannot underflow). Header/media/encoding/method/version parsers and get_abs_path are total functions in the model (no checked operation inside). Correspondence + catch_unwind + per-call syscall counters on the implementation.",
          "Trusted: Lean kernel; hand model (checked differentially); std internals and the allocator are outside the model; 'cannot block' is reduced to 'at most one recv / one write per call on a non-blocking stream' and counted on the implementation."),
+ "C05": ("Theorems for every response: layout (status line, Server, Connection: keep-alive, optional Allow/Deprecation, then iff a length is present Content-Type, Content-Length, optional Accept-Encoding, blank line, body); "
+         "length_rule for every builder-call sequence of any length (present for all statuses but 100/204, absent there unless a body is set, equal to the body length as i32); "
+         "roundtrip: an independent reader (status line, lines to the blank line, Content-Length bytes) recovers version, code, header lines and body of EVERY response from ANY concatenation of self-delimiting responses, "
+         "and built_selfDelimiting shows API-built responses (server id without CR LF, body < 2^31) are self-delimiting; sink_independent: any schedule of short/interrupted/failed writes yields a prefix, all of it iff Ok. "
+         "Correspondence: exhaustive builder sequences x 22 (version,status) pairs, random bodies to 64 KiB, splitting sinks, keep-alive streams read back by the Lean reader.",
+         "Trusted: Lean kernel; hand model of response.rs (the list of write_all pieces) checked differentially byte for byte; std's Write::write_all loop as modelled (writeAllOne)."),
+ "C15": ("Theorems for all byte strings: names are matched case-insensitively (name_case_insensitive, via isUtf8/asciiLower lemmas), SP/HTAB padding is ignored by trim, and an exact rule per header "
+         "(Content-Length: u32 decimal after trim or fatal InvalidValue; Accept: last supported value; Content-Type/Server: no effect; Expect/Transfer-Encoding: flag set by any occurrence, other values ignored; "
+         "Accept-Encoding fatal exactly when Encoding::try_from rejects, with encoding_rejects_iff characterising that: empty, non-UTF-8, an item trimming to identity;q=0, or *;q=0 with identity not mentioned; "
+         "custom entries with trimmed name/value, newest wins), fatal_iff, block = fold of its CRLF-separated lines up to the first empty one, content_length_last_wins and expect_any over any accepted block. "
+         "Correspondence on >40k header-line/block ops per quick run incl. Unicode whitespace, invalid UTF-8 with exact Utf8Error positions.",
+         "Trusted: Lean kernel; hand model of common/headers.rs and of the std string functions it uses (trim over Unicode White_Space, from_utf8 with valid_up_to/error_len, parse::<u32>) checked differentially."),
+ "C17": ("Theorems: the lookup key METHOD:prefix+path determines method and path (routeKey_injective); after ANY registration sequence on a new router a request is dispatched to the FIRST handler registered for "
+         "(its method, its absolute path) and to none otherwise (dispatch_first_registered); duplicates are refused with the key and change nothing; the response is the handler's or an HTTP/1.1 404, "
+         "stamped with the configured server id and application/json (handle_spec). Correspondence: exhaustive tables x all requests with recording handlers.",
+         "Trusted: Lean kernel; hand model of router.rs (HashMap as association list with unique keys; handlers opaque)."),
 }
 TECH = "Lean 4 theorems over a hand-written model + differential correspondence check (Rust harness vs compiled Lean driver)"
 
